@@ -6,6 +6,9 @@
 #include <mutex>
 #include <utility>
 #include "common_types.h"
+#ifdef TEAKRA_VERIF
+#include "verif_hooks.h"
+#endif
 
 namespace Teakra {
 
@@ -27,6 +30,9 @@ public:
         std::lock_guard lock(mutex);
         IrqBits bits(irq_bits);
         request |= bits;
+#ifdef TEAKRA_VERIF
+        TEAKRA_VERIF_YIELD(Verif::IcuTriggerBeforeHandler);
+#endif
         for (u32 irq = 0; irq < 16; ++irq) {
             if (bits[irq]) {
                 for (u32 interrupt = 0; interrupt < enabled.size(); ++interrupt) {
